@@ -47,6 +47,13 @@ CLAIMED["C04"] = dict(
     note="Trusted: TLC, TLA+ Aead/SM4, GF(2^128) product via a Java override cross-checked against its TLA+ definition (GF2Agree), replayer plumbing, guard pages. Tampering beyond single bytes and messages beyond 257 bytes are not explored.",
     technique="TLA+ executable specification + TLC exploration of seal/tamper/open scenarios + spec-to-code trace replay with guard pages")
 
+CLAIMED["C05"] = dict(
+    category="model_checking",
+    text="The affine group law, scalar field and SEC1 encodings are written in TLA+ (EC.tla over BigNat), validated exhaustively on toy curves (all pairs/triples, Mul against repeated addition, decoder accept set over all strings) and pinned by the GB/T 32918 worked examples. TLC explores a two-register machine over structured point classes (O, +-kG, tiny/huge coordinates, random) and scalar classes (0, 1, n+-d, above 2^256, byte lengths 0..40, every Booth window value in every position, limb-edge runs) with actions BaseMult, Mult, Combined, Add, Double, Decode, Encode, IsOnCurve, OrdInv, OrdMul; every transition is replayed through elliptic.Curve, the internal point type, P256OrdInverse/P256OrdMul and the ecdh/sm2 key constructors under ADX+BMI2, no-ADX, no-BMI2 and purego.",
+    design_ref="DESIGN.md section 4, C05",
+    note="Trusted: TLC, BigNat Java overrides (cross-checked with their TLA+ definitions), EC.tla (toy-curve exhaustive validation + standard KATs), replayer plumbing. Points x scalars are sampled inside structured classes; the exhaustive decoder accept set is on toy curves only.",
+    technique="TLA+ executable specification + TLC exploration + spec-to-code trace replay per field-arithmetic backend")
+
 NOT_BUILT = "not built yet (in progress; see DESIGN.md section 9 build order)"
 NA = {}
 
